@@ -483,10 +483,24 @@ def variant_facts(fn, bb, prog=None):
     return out
 
 
+def closure_parent(prog, cf):
+    """the function (or closure) whose body builds the closure cf: for a nested closure that is the enclosing closure, not
+    the outermost function that `closure_of` names; helpers absorbed by inlining are still found"""
+    if not cf.closure_of:
+        return None
+    absorbed = getattr(prog, "absorbed", {})
+    if "::{closure" in cf.path:
+        enclosing = cf.path.rsplit("::{closure", 1)[0]
+        p_ = prog.fns.get(enclosing) or absorbed.get(enclosing)
+        if p_ is not None:
+            return p_
+    return prog.fns.get(cf.closure_of) or absorbed.get(cf.closure_of)
+
+
 def resolve_upvars(prog, cf, o):
     """replace reads of a closure's captured variables (`(*_1).N`) in the origin tree `o` by the origin of the captured
     operand at the place where the parent function builds the closure"""
-    parent = prog.fns.get(cf.closure_of) if cf.closure_of else None
+    parent = closure_parent(prog, cf)
     if parent is None:
         return o
     caps = None
